@@ -298,7 +298,7 @@ func init() {
 				c12Replay(c, hc)
 			})
 			// under the diagnostics options a setter may stop at a validation error: URL and list must agree then too
-			for _, n := range []string{"fail", "report", "fail+report", "singlePct+lax"} {
+			for _, n := range []string{"fail", "report", "fail+report", "singlePct+lax", "specialAdd", "skipEq", "collapse+skipDrive", "queryC+squeryA"} {
 				cfg := cfgFromDesc(n)
 				famHist(c, cfg, 4000*c.Scale, 8, "ppqqqss", false, allButVerrs, "sp+setsearch+setters:"+n, func(d *Driver, hc histCase, h *implHist, steps []Step, start Obs) {
 					c12Replay(c, hc)
@@ -321,6 +321,13 @@ func init() {
 			famHist(c, rep, 6000*c.Scale, 8, "RcsssprR", true, allFields, "two-handles:report", func(d *Driver, hc histCase, h *implHist, steps []Step, start Obs) {
 				c13Check(c, hc, steps, start)
 			})
+			// the frame conditions do not depend on the options in force: a sweep over the other option families
+			for _, n := range []string{"specialAdd", "lax+collapse", "singlePct+acceptInvalid", "skipDrive+skipTrailSlash", "fail", "report+lax+specialAdd"} {
+				cfg := cfgFromDesc(n)
+				famHist(c, cfg, 1500*c.Scale, 8, "RcsspprR", true, allFields, "two-handles:"+n, func(d *Driver, hc histCase, h *implHist, steps []Step, start Obs) {
+					c13Check(c, hc, steps, start)
+				})
+			}
 		},
 		rule: "generated histories over two live handles (B := A.Parse(ref), other := x.Clone()) followed by setters / SearchParams operations / in-place resolutions on either; after each step every observable of the handle not operated on must be unchanged, and both handles are compared with the value-semantics model",
 	}
